@@ -182,9 +182,12 @@ class BaseDiscretizer(BaseEstimator, TransformerMixin):
             if output_dtype == "float":
                 labels = [n for n, _ in enumerate(labels)]
 
-            # building label per value
+            # building label per value (labels were built with str_nan last, wherever it is in values)
+            ordered_values = [value for value in values if value != self.str_nan]
+            if self.str_nan in values:
+                ordered_values += [self.str_nan]
             label_per_value: dict[Any, Any] = {}
-            for group_of_values, label in zip(values, labels):
+            for group_of_values, label in zip(ordered_values, labels):
                 for value in values.get(group_of_values):
                     label_per_value.update({value: label})
 
